@@ -30,7 +30,7 @@ BOUNDS = {
     "thorough": {"set": "same shapes", "N": "0..5, two UID layouts"},
 }
 SYMBOLIC = ["range endpoints and single numbers", "probed message position"]
-REALISED = ["endpoints that reach range() or an error-message f-string are enumerated by the decision tree"]
+REALISED = ["endpoints and probe are concretised by binary search on comparisons (they reach range() and error-message f-strings, where CrossHair would realise them anyway): one decision-tree leaf per value"]
 STUBS = ["FakeMH", "NullDB", "SearchContext built on the real Mailbox"]
 ASSUMPTIONS = ["UID 0 is not a UID: either BAD or 'matches nothing' is accepted for it"]
 OUTSIDE = ["sets of more than 3 elements", "N > 5"]
@@ -65,7 +65,8 @@ def agree(a: int, b: int, c: int, v: int, uid: bool) -> bool:
     pre: (core.PARAMS["shape"] in (1, 5, 6) or b == 0 or core.PARAMS["shape"] == 4) and (core.PARAMS["shape"] == 6 or c == 0) and (core.PARAMS["shape"] not in (2, 4) or a == 0)
     post: _
     """
-    return held(_agree, locals())
+    hi = core.PARAMS["hi"]
+    return held(_agree, {"a": core.pick(a, 0, hi + 1), "b": core.pick(b, 0, hi + 1), "c": core.pick(c, 0, hi + 1), "v": core.pick(v, 1, max(1, core.PARAMS["n"]) + 1), "uid": core.PARAMS["uid"]})
 
 
 def _agree(a, b, c, v, uid):
